@@ -7,12 +7,21 @@ A_EXTRACT = ('A-EXTRACT: Verus sees the verbatim text of each function extracted
              'after the declared rewrites listed per function under functions_under_contract[].rewrites')
 
 PROPS = {
+    'C01': dict(
+        level='proof', verus=['c14_writers', 'c01_parse'],
+        trusted_base=[A_TOOLS, A_EXTRACT, 'A-IO: verus/prelude/{io,read}.rs state the documented std::io Write / Read / Take contracts',
+                      'A-LEAF-LINK: the external_body leaf contracts of prelude/leaves.rs, prelude/decode.rs and Lead::parse are the assertion sets of the Kani harnesses k_intro_fields, k_entry_fields, k_entry_short, k_lead_fields, k_take_till_nul, k_parse_binary_entry, k_dec_u16/u32/u64, k_be_link run on the real functions'],
+        assumptions=['A-LOSSY: String::from_utf8_lossy is a total function of the bytes (uninterpreted); strings are not part of the serialised form (the store is kept verbatim)',
+                     'the numeric / binary / take_till decode leaves are proved by Kani for slices of bounded length (<= 8..16 bytes, all u32 counts): listed under bounded_obligations, not counted as proved',
+                     'fixpoint sentence: follows from the two contracts (parse consumes canon-equal bytes; write emits ser) - the composition lemma over whole packages is stated per segment in meta_parsed, not as one closed lemma'],
+        explanation='Write side: every serialiser emits exactly ser(x) (Verus, verbatim bodies, any sink). Read side: Header::parse / parse_header (including the real per-type decode loop, desugared to an index loop) / parse_signature / PackageMetadata::parse / Package::parse consume exactly the serialised length and return a value whose serialisation equals the consumed bytes with the reserved intro bytes and signature padding zeroed (meta_parsed), unbounded in entry count, store size and payload; fixed-size leaves (intro, index entry, lead) are complete Kani proofs over all 16/96-byte inputs.',
+    ),
     'C14': dict(
-        level='proof', verus=['c14_writers'],
+        level='proof', verus=['c14_writers', 'c01_parse'],
         trusted_base=[A_TOOLS, A_EXTRACT, 'A-IO: verus/prelude/io.rs states the documented std::io::Write contract (write accepts n<=len bytes or fails having accepted none; write_all appends all or fails having appended a prefix)',
                       'A-LEAF-LINK: BeBytes contract == std to_be_bytes, proved for all values by Kani k_be_link'],
         assumptions=['Error conversions performed by `?` are abstracted to one enum (R4): no effect on control flow'],
-        explanation='For ANY sink obeying the Write contract (universally quantified VWrite), every serialiser (intro, index entry, header, signature header + padding, lead, metadata, package) returns Ok only after the sink accepted exactly the canonical bytes and Err only after a prefix of them; proved on the verbatim bodies, unbounded in entries/store/payload.',
+        explanation='Read side: the parsers use the source only through read_exact / read_to_end / Take::read_to_end whose contracts mention the remaining stream content, never its chunking, so parse is a function of the byte string and inputs shorter than lead+two intros are Err (postconditions of PackageMetadata::parse / Package::parse). Write side: for ANY sink obeying the Write contract (universally quantified VWrite), every serialiser (intro, index entry, header, signature header + padding, lead, metadata, package) returns Ok only after the sink accepted exactly the canonical bytes and Err only after a prefix of them; proved on the verbatim bodies, unbounded in entries/store/payload.',
     ),
     'C16': dict(
         level='proof', verus=['c16_offsets'],
@@ -36,6 +45,13 @@ PROPS = {
 # "fix:" commits made in /repo (repairs of genuine defects found by the checks; unguarded by design)
 FIX_COMMITS = [
     'ba7e0da fix: compute header size and segment offsets in u64',
+    '7bb938a fix: write index entries with write_all',
+    '442f005 fix: compare all three header magic bytes',
+    '49d3edd fix: bound the header read by the input length and compute its size in u64',
+    '922ae17 fix: reject index entries whose offset lies outside the store',
+    'ce0fcfc fix: unterminated string arrays are an error and i18n items skip their terminator',
+    '6ac32fd fix: do not reserve more numeric items than the input can supply',
+    'c54702a fix: as_i18n_str returns None for an empty i18n table instead of panicking',
 ]
 
 NOT_APPLICABLE = {
